@@ -7,11 +7,17 @@ import backends
 def check(run):
     for cfg in configs(run, extra_quick=('nd',)):
         F = run.facts(cfg)
+        # helpers this property stands on (rule sets owned by other properties, see common.deps)
+        from common import deps as _deps
+        _deps(run, F, 'accessors')
         n = drivers.check_drivers(run, F)
         run.floor('IDX.driver', 'unchecked accesses in the 5 kernel-form drivers', n, 27)
         backends.check_fast_paths(run, F)
         from C07 import head_of
         backends.check_writes(run, F, head_of)
+    # every container the generic code can be instantiated with hands out its elements in logical order
+    from common import dep_backends as _dep_backends
+    _dep_backends(run)
     return run.finish(
         'proof',
         'Obligations over the five kernel-form drivers and six iterator-form drivers of '
